@@ -417,9 +417,9 @@ Lemma xfull_step s m sc o : Full s m sc ->
   (oos (xscope scope sc o) = false -> v = []) /\ (forall c, In c v -> c = CL_CLIENT).
 Proof.
   intros F. destruct o as [o|a b]; cbn [xstep xmon xscope]; [exact (full_step s m sc o F)|].
-  destruct (overlap a b) as [[[p q] ctr]|] eqn:Eo.
+  destruct (xsplit a b) as [P|] eqn:Eo.
   2:{ split; [exact F|]. split; [reflexivity | intros c []]. }
-  pose proof (overlap_split s a b p q ctr Eo) as Hsp. cbv zeta in Hsp.
+  pose proof (xsplit_split s a b P Eo) as Hsp. cbv zeta in Hsp.
   pose proof (full_step s m sc a F) as H1.
   destruct (step s a) as [s1 o1]. cbn [fst snd] in *.
   pose proof (fun m1 (F1 : Full s1 m1 (scope sc a)) => full_step s1 m1 (scope sc a) b F1) as H2.
@@ -468,6 +468,6 @@ Theorem overlap_is_sequential s a b p q ctr : overlap a b = Some (p, q, ctr) ->
   fst (xstep s (During a b)) = fst (step (fst (step s a)) b) /\
   snd (xstep s (During a b)) = snd (step s a) ++ snd (step (fst (step s a)) b).
 Proof.
-  intros Eo. cbn [xstep]. rewrite Eo. destruct (step s a) as [s1 o1]. cbn [fst snd].
+  intros Eo. cbn [xstep]. unfold xsplit. rewrite Eo. destruct (step s a) as [s1 o1]. cbn [fst snd].
   destruct (step s1 b) as [s2 o2]. split; reflexivity.
 Qed.
